@@ -28,7 +28,7 @@ func (g *gen) imp(p string) { g.imports[p] = true }
 // snippets) checked against the set of outcomes Go admits inside the program itself.
 func (g *gen) snippet() string {
 	ev := g.Ev()
-	switch g.Pick(13, "kind") {
+	switch g.Pick(15, "kind") {
 	case 0: // worker pool over buffered channels, commutative reduction
 		g.imp("sync")
 		w, n := g.Int(1, 6, "workers"), g.Int(0, 20, "jobs")
@@ -335,6 +335,79 @@ func (g *gen) snippet() string {
 	rec.E(%d, inits, atomic.LoadInt32(ph))
 }
 `, n, addr, ev)
+	case 12: // the SAME select statement executed by several goroutines, each with its own channels
+		// (operands are per-goroutine and their evaluation yields, so executions overlap)
+		g.imp("sync")
+		n := g.Int(2, 8, "n")
+		g.goroutines += n
+		g.Tag("same-select-many-goroutines")
+		return fmt.Sprintf(`{
+	n := %d
+	in := make([]chan int, n)
+	out := make([]chan int, n)
+	for i := range in {
+		in[i] = make(chan int, 1)
+		out[i] = make(chan int, 1)
+		in[i] <- 10*i + %d
+	}
+	pick := func(cs []chan int, i int) chan int {
+		rec.Yield()
+		return cs[i]
+	}
+	res := make([]int, n)
+	var wg sync.WaitGroup
+	for i := 0; i < n; i++ {
+		wg.Add(1)
+		go func(id int) {
+			defer wg.Done()
+			for k := 0; k < 2; k++ {
+				select {
+				case v := <-pick(in, id):
+					res[id] += v
+					out[id] <- v + 1
+				case w := <-pick(out, id):
+					res[id] += 1000 * w
+				}
+			}
+		}(i)
+	}
+	wg.Wait()
+	rec.E(%d, res)
+}
+`, n, g.Int(1, 7, "off"), ev)
+	case 13: // the same select with send cases executed by several goroutines
+		g.imp("sync")
+		n := g.Int(2, 6, "n")
+		g.goroutines += n
+		g.Tag("same-select-send-many-goroutines")
+		return fmt.Sprintf(`{
+	n := %d
+	box := make([]chan int, n)
+	for i := range box {
+		box[i] = make(chan int, 1)
+	}
+	val := func(i int) int {
+		rec.Yield()
+		return i*i + %d
+	}
+	var wg sync.WaitGroup
+	for i := 0; i < n; i++ {
+		wg.Add(1)
+		go func(id int) {
+			defer wg.Done()
+			select {
+			case box[id] <- val(id):
+			}
+		}(i)
+	}
+	wg.Wait()
+	got := make([]int, n)
+	for i := range box {
+		got[i] = <-box[i]
+	}
+	rec.E(%d, got)
+}
+`, n, g.Int(0, 5, "off"), ev)
 	default: // buffered channel as semaphore, close + range, cap/len
 		g.imp("sync")
 		n := g.Int(1, 8, "n")
